@@ -98,9 +98,10 @@ class P:
         else:
             raise ParseError("unexpected %r" % tok)
         while self.peek() in ("->", "."):
-            self.eat()
+            sep = self.eat()
             f = self.eat()
-            node = ("var", f)          # the last field name names the variable
+            base = node[1] if node[0] == "var" else "?"
+            node = ("var", base + sep + f)   # full access path; resolved by `resolve`
         return node
 
 def parse(s):
@@ -112,18 +113,30 @@ def parse(s):
 
 BOOL_OPS = {"==": "=?", "!=": None, "<": "<?", "<=": "<=?", ">": None, ">=": None}
 
-def free_vars(e, acc=None):
+def resolve(path, env):
+    """Coq name of a C access path: an explicit alias for the full path, else the last field name
+    (itself possibly aliased)."""
+    if path in env: return env[path]
+    last = re.split(r"->|\.", path)[-1]
+    return env.get(last, last)
+
+def free_vars(e, acc=None, env=None):
     acc = [] if acc is None else acc
+    env = env or {}
     if e[0] == "var":
-        if e[1] not in acc: acc.append(e[1])
+        v = resolve(e[1], env)
+        if v not in acc: acc.append(v)
+        return acc
+    if e[0] == "var":
+        pass
     elif e[0] == "bin":
-        free_vars(e[2], acc); free_vars(e[3], acc)
+        free_vars(e[2], acc, env); free_vars(e[3], acc, env)
     elif e[0] in ("not", "neg"):
-        free_vars(e[1], acc)
+        free_vars(e[1], acc, env)
     elif e[0] == "cast":
-        free_vars(e[2], acc)
+        free_vars(e[2], acc, env)
     elif e[0] == "ite":
-        free_vars(e[1], acc); free_vars(e[2], acc); free_vars(e[3], acc)
+        free_vars(e[1], acc, env); free_vars(e[2], acc, env); free_vars(e[3], acc, env)
     return acc
 
 def is_bool(e):
@@ -135,7 +148,7 @@ def to_n(e, env):
     if k == "num":
         return "%d" % e[1]
     if k == "var":
-        return env.get(e[1], e[1])
+        return resolve(e[1], env)
     if k == "cast":
         if e[1] in ("float", "double"):
             raise ParseError("float cast")
